@@ -126,8 +126,15 @@ fstring_string_single_line_raw = _compile(
 fstring_string_multi_line_raw = _compile(
     r'(?:\{\{|\}\}|\\[^{}]|\\(?=[{}])|[^{}\\])+'
 )
-fstring_format_spec_single_line = _compile(r'(?:\\(?:\r\n?|\n)|[^{}\r\n])+')
-fstring_format_spec_multi_line = _compile(r'[^{}]+')
+# A named unicode escape is literal text in a format spec as well.
+fstring_format_spec_single_line = _compile(
+    r'(?:\\N\{' + unicode_character_name + r'\}|\\(?:\r\n?|\n)|[^{}\r\n])+'
+)
+fstring_format_spec_multi_line = _compile(
+    r'(?:\\N\{' + unicode_character_name + r'\}|[^{}])+'
+)
+fstring_format_spec_single_line_raw = _compile(r'(?:\\(?:\r\n?|\n)|[^{}\r\n])+')
+fstring_format_spec_multi_line_raw = _compile(r'[^{}]+')
 
 
 def _create_token_collection(version_info):
@@ -313,7 +320,12 @@ def _find_fstring_string(endpats, fstring_stack, line, lnum, pos):
     tos = fstring_stack[-1]
     allow_multiline = tos.allow_multiline()
     if tos.is_in_format_spec():
-        if allow_multiline:
+        if tos.raw:
+            if allow_multiline:
+                regex = fstring_format_spec_multi_line_raw
+            else:
+                regex = fstring_format_spec_single_line_raw
+        elif allow_multiline:
             regex = fstring_format_spec_multi_line
         else:
             regex = fstring_format_spec_single_line
